@@ -139,10 +139,13 @@ def firstConflict (log : List Entry) : List Entry → Option Nat
 
 /-- does the durable state hold `(idx, term)` (as a log entry, or as the newest snapshot's end) -/
 def holds (d : Durable) (idx term : Nat) : Bool :=
-  match getLog d.log idx with
-  | some e => e.term == term
-  | none => match newestSnap d with
-    | some s => s.idx == idx && s.term == term
+  match newestSnap d with
+  | some s =>
+      if idx < s.idx then true                    -- covered by the snapshot (committed history)
+      else if idx = s.idx then s.term == term
+      else (match getLog d.log idx with | some e => e.term == term | none => false)
+  | none => match getLog d.log idx with
+    | some e => e.term == term
     | none => false
 
 def aeConsistent : List Step → Nat → Option (Nat × String)
@@ -160,7 +163,7 @@ def aeConsistent : List Step → Nat → Option (Nat × String)
           else match s.post.resp with
             | .append _ _ true _ =>
                 if !(a.prevIdx == 0 || holds s.pre.dur a.prevIdx a.prevTerm) then some "success-without-matching-previous-entry"
-                else if !(a.entries.all (fun e => getLog s.post.dur.log e.index == some e)) then some "success-but-log-differs-from-sent"
+                else if !(a.entries.all (fun e => e.index ≤ ((newestSnap s.post.dur).map (·.idx)).getD 0 || getLog s.post.dur.log e.index == some e)) then some "success-but-log-differs-from-sent"
                 else none
             | _ => none
       | _ => none
@@ -185,7 +188,7 @@ def aeConsistentAny : List Step → Nat → Option (Nat × String)
           if !delOK then some "deleted-or-replaced-entries-before-first-conflict"
           else match s.post.resp with
             | .append _ _ true _ =>
-                if !(a.entries.all (fun e => ((getLog s.post.dur.log e.index).map (·.term)) == some e.term)) then some "success-but-log-differs-from-sent"
+                if !(a.entries.all (fun e => e.index ≤ s.post.vol.snapIdx || ((getLog s.post.dur.log e.index).map (·.term)) == some e.term)) then some "success-but-log-differs-from-sent"
                 else none
             | _ => none
       | _ => none
